@@ -9,6 +9,20 @@ import LibfiberVerif.Model.WorkQueue
 
 namespace LibfiberVerif.WorkQueue
 
+/-! ### relations between the pc classes -/
+
+theorem Pc.popWin_retWin {p : Pc} (h : p.popWin = true) : p.retWin = true := by
+  cases p <;> simp_all [Pc.popWin, Pc.retWin]
+
+theorem Pc.retWin_isWorker {p : Pc} (h : p.retWin = true) : p.isWorker = true := by
+  cases p <;> simp_all [Pc.isWorker, Pc.retWin]
+
+theorem Pc.retWin_inGetWork {p : Pc} (h : p.retWin = true) : p.inGetWork = true := by
+  cases p <;> simp_all [Pc.inGetWork, Pc.retWin]
+
+theorem Pc.inGetWork_isWorker {p : Pc} (h : p.inGetWork = true) : p.isWorker = true := by
+  cases p <;> simp_all [Pc.isWorker, Pc.inGetWork]
+
 /-! ### the counting invariant -/
 
 structure CInv (s : St) : Prop where
@@ -37,19 +51,236 @@ structure CInv (s : St) : Prop where
 theorem cinv_init : CInv init := by
   constructor <;> simp [init, Pc.isWorker, Pc.popWin, Pc.retWin]
 
-theorem cinv_step (s : St) (e : Ev) (s' : St) (I : CInv s) (hs : step s e = some s') : CInv s' := by
+/-- common script: split the step, substitute the new state, prove each conjunct with `grind` -/
+macro "cinv_tac" : tactic => `(tactic| (
+  all_goals
+    (intros; (try dsimp only at *); grind [upd, Pc.isWorker, Pc.popWin, Pc.retWin, → Pc.popWin_retWin, → Pc.retWin_isWorker])))
+
+macro "split_step" hs:ident : tactic => `(tactic| (
+  simp only [step] at $hs:ident <;> split at $hs:ident <;> simp at $hs:ident
+  all_goals
+    first
+      | (obtain ⟨hc, hs2⟩ := $hs:ident; subst hs2)
+      | (subst $hs:ident)))
+
+theorem cinv_callPush (s s' : St) (t v n : Nat) (I : CInv s) (hs : step s (.callPush t v n) = some s') : CInv s' := by
   obtain ⟨cnt, one, wk, pos, idle0, outc, zeroed, oldv, gotout, popwin, npopwin, retwin, nretwin,
     hle, pend1, pend2, ann⟩ := I
-  cases e <;> simp only [step] at hs <;> split at hs <;> simp at hs
-  all_goals
-    first
-      | (obtain ⟨hc, rfl⟩ := hs)
-      | (subst hs)
-  all_goals
+  split_step hs
+  all_goals constructor
+  cinv_tac
+
+theorem cinv_retPush (s s' : St) (t r : Nat) (I : CInv s) (hs : step s (.retPush t r) = some s') : CInv s' := by
+  obtain ⟨cnt, one, wk, pos, idle0, outc, zeroed, oldv, gotout, popwin, npopwin, retwin, nretwin,
+    hle, pend1, pend2, ann⟩ := I
+  split_step hs
+  all_goals constructor
+  cinv_tac
+
+theorem cinv_callGw (s s' : St) (t : Nat) (I : CInv s) (hs : step s (.callGw t) = some s') : CInv s' := by
+  obtain ⟨cnt, one, wk, pos, idle0, outc, zeroed, oldv, gotout, popwin, npopwin, retwin, nretwin,
+    hle, pend1, pend2, ann⟩ := I
+  split_step hs
+  all_goals constructor
+  cinv_tac
+
+theorem cinv_retGw (s s' : St) (t v n : Nat) (I : CInv s) (hs : step s (.retGw t v n) = some s') : CInv s' := by
+  obtain ⟨cnt, one, wk, pos, idle0, outc, zeroed, oldv, gotout, popwin, npopwin, retwin, nretwin,
+    hle, pend1, pend2, ann⟩ := I
+  split_step hs
+  all_goals constructor
+  cinv_tac
+
+theorem cinv_faddIn (s s' : St) (t old : Nat) (I : CInv s) (hs : step s (.faddIn t old) = some s') : CInv s' := by
+  obtain ⟨cnt, one, wk, pos, idle0, outc, zeroed, oldv, gotout, popwin, npopwin, retwin, nretwin,
+    hle, pend1, pend2, ann⟩ := I
+  split_step hs
+  rename_i hc
+  have hw : old = 0 → s.workers = [] := by
+    intro h
+    by_cases hw : s.workers = []
+    · exact hw
+    · have := pos hw; omega
+  by_cases h0 : old = 0
+  · have hw0 := hw h0
+    have hi := idle0 hw0
+    simp only [h0, if_true, hw0]
     constructor
-  all_goals
-    first
-      | (intros; dsimp only at *; grind [upd, Pc.isWorker, Pc.popWin, Pc.retWin])
-      | (intros; dsimp only at *; trace_state; sorry)
+    cinv_tac
+  · simp only [h0, if_false]
+    constructor
+    cinv_tac
+
+theorem cinv_fsubIn (s s' : St) (t old op : Nat) (I : CInv s) (hs : step s (.fsubIn t old op) = some s') : CInv s' := by
+  obtain ⟨cnt, one, wk, pos, idle0, outc, zeroed, oldv, gotout, popwin, npopwin, retwin, nretwin,
+    hle, pend1, pend2, ann⟩ := I
+  split_step hs
+  all_goals constructor
+  cinv_tac
+
+theorem cinv_rdIn (s s' : St) (t x : Nat) (I : CInv s) (hs : step s (.rdIn t x) = some s') : CInv s' := by
+  obtain ⟨cnt, one, wk, pos, idle0, outc, zeroed, oldv, gotout, popwin, npopwin, retwin, nretwin,
+    hle, pend1, pend2, ann⟩ := I
+  split_step hs
+  all_goals constructor
+  cinv_tac
+
+theorem cinv_rdOut (s s' : St) (t x : Nat) (I : CInv s) (hs : step s (.rdOut t x) = some s') : CInv s' := by
+  obtain ⟨cnt, one, wk, pos, idle0, outc, zeroed, oldv, gotout, popwin, npopwin, retwin, nretwin,
+    hle, pend1, pend2, ann⟩ := I
+  split_step hs
+  all_goals constructor
+  cinv_tac
+
+theorem cinv_wrOut (s s' : St) (t x : Nat) (I : CInv s) (hs : step s (.wrOut t x) = some s') : CInv s' := by
+  obtain ⟨cnt, one, wk, pos, idle0, outc, zeroed, oldv, gotout, popwin, npopwin, retwin, nretwin,
+    hle, pend1, pend2, ann⟩ := I
+  split_step hs
+  all_goals constructor
+  cinv_tac
+
+theorem cinv_rdHead (s s' : St) (t x : Nat) (I : CInv s) (hs : step s (.rdHead t x) = some s') : CInv s' := by
+  obtain ⟨cnt, one, wk, pos, idle0, outc, zeroed, oldv, gotout, popwin, npopwin, retwin, nretwin,
+    hle, pend1, pend2, ann⟩ := I
+  split_step hs
+  all_goals constructor
+  cinv_tac
+
+theorem cinv_wrHead (s s' : St) (t x : Nat) (I : CInv s) (hs : step s (.wrHead t x) = some s') : CInv s' := by
+  obtain ⟨cnt, one, wk, pos, idle0, outc, zeroed, oldv, gotout, popwin, npopwin, retwin, nretwin,
+    hle, pend1, pend2, ann⟩ := I
+  split_step hs
+  all_goals constructor
+  cinv_tac
+
+theorem cinv_xchgTail (s s' : St) (t old new : Nat) (I : CInv s) (hs : step s (.xchgTail t old new) = some s') : CInv s' := by
+  obtain ⟨cnt, one, wk, pos, idle0, outc, zeroed, oldv, gotout, popwin, npopwin, retwin, nretwin,
+    hle, pend1, pend2, ann⟩ := I
+  split_step hs
+  all_goals constructor
+  cinv_tac
+
+theorem cinv_rdNext (s s' : St) (t n x : Nat) (I : CInv s) (hs : step s (.rdNext t n x) = some s') : CInv s' := by
+  obtain ⟨cnt, one, wk, pos, idle0, outc, zeroed, oldv, gotout, popwin, npopwin, retwin, nretwin,
+    hle, pend1, pend2, ann⟩ := I
+  split_step hs
+  all_goals constructor
+  cinv_tac
+
+theorem cinv_wrNext (s s' : St) (t n x : Nat) (I : CInv s) (hs : step s (.wrNext t n x) = some s') : CInv s' := by
+  obtain ⟨cnt, one, wk, pos, idle0, outc, zeroed, oldv, gotout, popwin, npopwin, retwin, nretwin,
+    hle, pend1, pend2, ann⟩ := I
+  split_step hs
+  all_goals constructor
+  cinv_tac
+
+theorem cinv_rdData (s s' : St) (t n x : Nat) (I : CInv s) (hs : step s (.rdData t n x) = some s') : CInv s' := by
+  obtain ⟨cnt, one, wk, pos, idle0, outc, zeroed, oldv, gotout, popwin, npopwin, retwin, nretwin,
+    hle, pend1, pend2, ann⟩ := I
+  split_step hs
+  all_goals constructor
+  cinv_tac
+
+theorem cinv_wrData (s s' : St) (t n x : Nat) (I : CInv s) (hs : step s (.wrData t n x) = some s') : CInv s' := by
+  obtain ⟨cnt, one, wk, pos, idle0, outc, zeroed, oldv, gotout, popwin, npopwin, retwin, nretwin,
+    hle, pend1, pend2, ann⟩ := I
+  split_step hs
+  all_goals constructor
+  cinv_tac
+
+theorem cinv_step (s : St) (e : Ev) (s' : St) (I : CInv s) (hs : step s e = some s') : CInv s' := by
+  cases e with
+  | callPush t v n => exact cinv_callPush s s' t v n I hs
+  | retPush t r => exact cinv_retPush s s' t r I hs
+  | callGw t => exact cinv_callGw s s' t I hs
+  | retGw t v n => exact cinv_retGw s s' t v n I hs
+  | faddIn t old => exact cinv_faddIn s s' t old I hs
+  | fsubIn t old op => exact cinv_fsubIn s s' t old op I hs
+  | rdIn t x => exact cinv_rdIn s s' t x I hs
+  | rdOut t x => exact cinv_rdOut s s' t x I hs
+  | wrOut t x => exact cinv_wrOut s s' t x I hs
+  | rdHead t x => exact cinv_rdHead s s' t x I hs
+  | wrHead t x => exact cinv_wrHead s s' t x I hs
+  | xchgTail t old new => exact cinv_xchgTail s s' t old new I hs
+  | rdNext t n x => exact cinv_rdNext s s' t n x I hs
+  | wrNext t n x => exact cinv_wrNext s s' t n x I hs
+  | rdData t n x => exact cinv_rdData s s' t n x I hs
+  | wrData t n x => exact cinv_wrData s s' t n x I hs
+
+/-! ### list helpers -/
+
+theorem getElem?_append_of_some {l : List Nat} {i : Nat} {x : Nat} (v : Nat)
+    (h : l[i]? = some x) : (l ++ [v])[i]? = some x := by
+  have hi : i < l.length := by
+    rcases List.getElem?_eq_some_iff.mp h with ⟨hi, _⟩; exact hi
+  rw [List.getElem?_append_left hi]; exact h
+
+theorem getElem?_append_lt {l : List Nat} {i : Nat} (v : Nat) (hi : i < l.length) :
+    (l ++ [v])[i]? = l[i]? := List.getElem?_append_left hi
+
+theorem getElem?_append_length (l : List Nat) (v : Nat) : (l ++ [v])[l.length]? = some v := by
+  simp
+
+theorem take_succ_of_getElem? {l : List Nat} {i x : Nat} (h : l[i]? = some x) :
+    l.take (i + 1) = l.take i ++ [x] := by
+  rw [List.take_add_one, h]; rfl
+
+/-! ### the invariant of the inlined MPSC fifo
+
+  Split in a part that does not mention program counters (`Chain`, a predicate of the
+  individual cells / ghost fields, hence insensitive to `pc` updates) and what each program
+  counter value guarantees (`PcOk`). -/
+
+structure Chain (hd tl head tail : Nat) (next nodeAt : Nat → Nat) (linked : Nat → Bool)
+    (own : Nat → Own) (data : Nat → Nat) (xchgd handed : List Nat) : Prop where
+  hdtl : hd ≤ tl
+  head_eq : head = nodeAt hd
+  tail_eq : tail = nodeAt tl
+  /-- a written link points to the next queue position -/
+  lk : ∀ i, hd ≤ i → i < tl → linked i = true → next (nodeAt i) = nodeAt (i + 1)
+  /-- an unwritten link is NULL -/
+  unlk : ∀ i, hd ≤ i → i ≤ tl → linked i = false → next (nodeAt i) = 0
+  lktl : ∀ i, tl ≤ i → linked i = false
+  lkhd : ∀ i, i < hd → linked i = true
+  /-- the nodes from the stub to the tail are pairwise distinct (nodes are recycled, so this
+      is not true of the whole history) -/
+  dist : ∀ i j, hd ≤ i → i < j → j ≤ tl → nodeAt i ≠ nodeAt j
+  qd : ∀ i, hd ≤ i → i ≤ tl → own (nodeAt i) = .queued
+  nz : ∀ i, hd ≤ i → i ≤ tl → nodeAt i ≠ 0
+  /-- queued nodes carry the exchanged values, in order -/
+  dat : ∀ i, hd ≤ i → i < tl → xchgd[i]? = some (data (nodeAt (i + 1)))
+  xlen : xchgd.length = tl
+  /-- items handed out = a prefix of the exchange order -/
+  hand : handed = xchgd.take handed.length
+
+/-- what the program counter of thread `t` (with the values it has observed) guarantees -/
+def PcOk (tl head : Nat) (next nodeAt : Nat → Nat) (linked : Nat → Bool) (linker : Nat → Nat)
+    (own : Nat → Own) (data : Nat → Nat) (xchgd handed : List Nat) (t : Nat) : Pc → Prop
+  | .pushCalled v n => own n = .held t ∧ data n = v ∧ n ≠ 0
+  | .pushAnnounced v n _ => own n = .held t ∧ data n = v ∧ n ≠ 0
+  | .pushTerminated v n _ => own n = .held t ∧ data n = v ∧ n ≠ 0 ∧ next n = 0
+  -- between its exchange and its link write a producer owns the unwritten link `i`
+  | .pushXchgd n prev _ i =>
+    i < tl ∧ linked i = false ∧ nodeAt i = prev ∧ nodeAt (i + 1) = n ∧ linker i = t
+  | .gwGotHead h => h = head
+  | .gwGotNext h nx => h = head ∧ nx = next h ∧ nx ≠ 0
+  -- the item about to be handed out is the next one in exchange order
+  | .gwMoved h nx => own h = .taken t ∧ nx = head ∧ xchgd[handed.length]? = some (data nx)
+  | .gwGotData h v => own h = .taken t ∧ xchgd[handed.length]? = some v
+  | .gwWrote h v => own h = .taken t ∧ xchgd[handed.length]? = some v
+  | .gwGotOut h v _ => own h = .taken t ∧ xchgd[handed.length]? = some v
+  | .gwDone v h => own h = .taken t ∧ xchgd[handed.length]? = some v
+  | _ => True
+
+structure MInv (s : St) : Prop where
+  chain : Chain s.hd s.tl s.head s.tail s.next s.nodeAt s.linked s.own s.data s.xchgd s.handed
+  pcok : ∀ t, PcOk s.tl s.head s.next s.nodeAt s.linked s.linker s.own s.data s.xchgd s.handed t
+    (s.pc t)
+
+theorem minv_init : MInv init := by
+  constructor
+  · constructor <;> simp [init]
+    all_goals (intros; omega)
+  · intro t; simp [init, PcOk]
 
 end LibfiberVerif.WorkQueue
